@@ -312,21 +312,32 @@ impl<'a> Parser<'a> {
         // consume string token
         self.advance();
 
-        // read the string, skipping any escape sequences
-        let mut b = value.chars().skip(1);
+        // Since program came from user input
+        // We have to replace escape sequences with their actual (single-char) value.
+        // This is done in a single pass so that the result of one escape sequence
+        // is never read again as (part of) another one.
         let mut s = String::with_capacity(value.len());
-        for ch in value.chars() {
-            let next = b.next();
-            if ch == '\\' && (next == Some('"') || next == Some('\\')) {
+        let mut chars = value.chars();
+        while let Some(ch) = chars.next() {
+            if ch != '\\' {
+                s.push(ch);
                 continue;
             }
 
-            s.push(ch);
+            match chars.next() {
+                Some('"') => s.push('"'),
+                Some('\\') => s.push('\\'),
+                Some('n') => s.push('\n'),
+                Some('t') => s.push('\t'),
+                // not an escape sequence we know: keep it as written
+                Some(other) => {
+                    s.push('\\');
+                    s.push(other);
+                }
+                None => s.push('\\'),
+            }
         }
 
-        // Since program came from user input
-        // We have to replace escape sequences with their actual (single-char) value
-        s = s.replace("\\n", "\n").replace("\\t", "\t");
         Expr::String { value: s }
     }
 
